@@ -354,9 +354,12 @@ DestroySeqStep(st, q) ==
   IF ~(q \in Seqs) THEN Skip(st) ELSE
   IF ~st.qalive[q] THEN Skip(st)
   ELSE LET p == st.pend[q]
+           \* the sequence object is gone: it no longer constrains anything.  Entries that are still alive simply leave it
+           \* (sequence_matcher::orphan): their eligibility is decided by the sequences that remain, or by nothing.
+           Leave(qs) == SelectSeq(qs, LAMBDA x : x # q)
        IN  [st |-> [st EXCEPT !.qalive[q] = FALSE, !.pend[q] = <<>>,
-                              \* what entries of a dead sequence do afterwards is not specified (only that it is safe)
-                              !.unspec = (@ \/ AliveHandlesOf(st, q) # {})],
+                              !.exp = [s \in Slots |-> IF st.exp[s].alive THEN [st.exp[s] EXCEPT !.qs = Leave(@)] ELSE st.exp[s]],
+                              !.mon = [k \in Mons |-> IF st.mon[k].alive THEN [st.mon[k] EXCEPT !.qs = Leave(@)] ELSE st.mon[k]]],
             obs |-> [Obs0 EXCEPT !.reps = IF p = <<>> THEN <<>>
                                           ELSE <<[Rp0 EXCEPT !.kind = "seq_teardown", !.lst = p]>>]]
 
